@@ -231,7 +231,7 @@ def alphabet(cfg, reduced=False, quick=False):
                 ('pop', 'a'), ('len',)]
     ops = [('set', 'c', 2), ('set', 'a', 5), ('getitem', 'a'), ('getitem', 'c'), ('get', 'a'), ('get', 'c'),
            ('setdefault', 'c', 7), ('setdefault', 'a', 7), ('del', 'a'), ('pop', 'a'), ('popitem',),
-           ('update', (('c', 3),)), ('clear',), ('eq', tuple(sorted(full.items()))), ('len',), ('in', 'a'),
+           ('update', (('c', 3),)), ('update', (('a', 8), ('c', 4))), ('update', (('c', 9), ('a', 7))), ('clear',), ('eq', tuple(sorted(full.items()))), ('len',), ('in', 'a'),
            ('in', 'c'), ('copy',)]
     if ms >= 2:
         ops += [('getitem', 'b'), ('set', 'b', 6), ('pop', 'b')]
